@@ -1348,6 +1348,15 @@ impl SubRule {
     }
     
     // TODO: break this up
+    /// Number of copies the matched segment consists of after its substitution: its length in the original word plus the length change.
+    /// (Not the run length found in the result word, which would also count a following segment that the output now happens to equal)
+    fn substituted_run_len(word: &Word, matched: MatchElement, len_change: i8) -> usize {
+        match matched {
+            MatchElement::Segment(sp, _) => (word.seg_length_at(sp) as i8 + len_change).max(1) as usize,
+            _ => 1
+        }
+    }
+
     fn substitution(&self, word: &Word, input: Vec<MatchElement>, next_pos: &mut Option<SegPos>) -> Result<Word, RuleRuntimeError> {
         // the SegPositions captured in input will not be correct if we change the length of a segment
         // therefore we must keep track of a change in a syllable's length and update the SegPositions accordingly
@@ -1450,7 +1459,7 @@ impl SubRule {
                             let lc = self.apply_seg_mods(&mut res_word, sp, m, v, out_state.position)?;
                             total_len_change[sp.syll_index] += lc;
                             // continue after the whole (possibly long) segment, not inside it
-                            last_pos.seg_index += res_word.seg_length_at(sp) - 1;
+                            last_pos.seg_index += Self::substituted_run_len(word, input[state_index], lc) - 1;
                             if self.input.len() == self.output.len() {
                                 if state_index < self.input.len() -1 {
                                     last_pos.seg_index +=1;
@@ -1480,7 +1489,7 @@ impl SubRule {
                         let lc = res_word.syllables[sp.syll_index].replace_segment(sp.seg_index, seg, mods, &self.alphas, out_state.position)?;
                         total_len_change[sp.syll_index] += lc;
                         // continue after the whole (possibly long) segment, not inside it
-                        last_pos.seg_index += res_word.seg_length_at(sp) - 1;
+                        last_pos.seg_index += Self::substituted_run_len(word, input[state_index], lc) - 1;
                         if self.input.len() == self.output.len() {
                             if state_index < self.input.len() -1 {
                                 last_pos.seg_index +=1;
@@ -1507,7 +1516,7 @@ impl SubRule {
                                     let lc = res_word.apply_seg_mods(&self.alphas, m, sp, num.position)?;
                                     total_len_change[sp.syll_index] += lc;
                                     // continue after the whole (possibly long) segment, not inside it
-                                    last_pos.seg_index += res_word.seg_length_at(sp) - 1;
+                                    last_pos.seg_index += Self::substituted_run_len(word, input[state_index], lc) - 1;
                                 }
                                 if self.input.len() == self.output.len() {
                                     if state_index < self.input.len() -1 {
@@ -1599,7 +1608,7 @@ impl SubRule {
                                                 let lc = res_word.apply_seg_mods(&self.alphas, m, sp, set_output[i].position)?;
                                                 total_len_change[sp.syll_index] += lc;
                                                 // continue after the whole (possibly long) segment, not inside it
-                                                last_pos.seg_index += res_word.seg_length_at(sp) - 1;
+                                                last_pos.seg_index += Self::substituted_run_len(word, input[state_index], lc) - 1;
                                             }
                                             if self.input.len() == self.output.len() {
                                                 if state_index < self.input.len() -1 {
@@ -1613,7 +1622,7 @@ impl SubRule {
                                             let lc = self.apply_seg_mods(&mut res_word, sp, mods, var, set_output[i].position)?;
                                             total_len_change[sp.syll_index] += lc;
                                             // continue after the whole (possibly long) segment, not inside it
-                                            last_pos.seg_index += res_word.seg_length_at(sp) - 1;
+                                            last_pos.seg_index += Self::substituted_run_len(word, input[state_index], lc) - 1;
                                             if self.input.len() == self.output.len() {
                                                 if state_index < self.input.len() -1 {
                                                     last_pos.seg_index +=1;
@@ -1631,7 +1640,7 @@ impl SubRule {
                                                             let lc = res_word.apply_seg_mods(&self.alphas, m, sp, num.position)?;
                                                             total_len_change[sp.syll_index] += lc;
                                                             // continue after the whole (possibly long) segment, not inside it
-                                                            last_pos.seg_index += res_word.seg_length_at(sp) - 1;
+                                                            last_pos.seg_index += Self::substituted_run_len(word, input[state_index], lc) - 1;
                                                         }
                                                         if self.input.len() == self.output.len() {
                                                             if state_index < self.input.len() -1 {
